@@ -79,8 +79,22 @@ ContainClauses(r) ==
      <<"error-state-within-limits",
        (r.out.k # "ok" /\ r.out.nstack >= 0) => (r.out.nstack <= MAX_STACK + 3 /\ r.out.nops <= MAX_OPS + 20)>> >>
 
+\* C05: a signed input verified before / after one edit (or with another key's signature); the whole
+\* VerifyScript is evaluated by the spec with real ECDSA, and the verdict must also be what the
+\* commitment table predicts
+FlowClauses(r) ==
+  LET c == Ctx(r)
+      v == VerifyOutcome(r.in.sig, r.in.pk, c)
+      committed == CommitsEdit(r.in.ht, r.in.idx, r.in.nout_at_sign, r.in.edit) IN
+  << <<"verify-outcome", (r.out.k = "ok") = (v = "accept")>>,
+     <<"verify-failure-is-validation-error", r.out.k = "ok" \/ IsValidationError(r.out)>>,
+     <<"committed-part-or-foreign-key-fails", committed => r.out.k # "ok">>,
+     <<"uncommitted-part-keeps-verifying", ~committed => r.out.k = "ok">>,
+     <<"unchanged-inputs", r.out.same>> >>
+
 Clauses(r) ==
   CASE r.op = "vm.begin" -> <<>>
+    [] r.op = "flow.verify" -> FlowClauses(r)
     [] r.op = "vm.step" -> StepClauses(r)
     [] r.op = "vm.end" -> EndClauses(r)
     [] r.op = "vm.eval" -> EvalClauses(r)
